@@ -73,12 +73,14 @@ def check_execution(cfg, ex, marks, leaked):
     P = []
     S, fw, dev = ex.S, ex.fw, ex.dev
     jobs = marks.get("jobs") or [{"name": cfg["job"].split("+")[0], "job_start": marks.get("job_start", 0), "accepted_start": 0}]
-    if leaked:
-        P.append(("harness:leaked-threads", f"threads {leaked} did not stop"))
+    # threads that did not unwind in time after an abort are a property of the harness and of machine load,
+    # never a verdict about gscrib: they are counted by the caller, not reported
     for t in S.threads:
         if t.exc is not None:
             P.append((f"thread-crashed:{t.name}", f"{t.name} died with {t.exc!r}"))
     for e in marks.get("errors", []):
+        if "SchedAbort" in str(e):                # the scheduler unwinding a stuck execution, not a host failure
+            continue
         if not str(e).startswith("Error"):        # firmware 'Error:...' lines are logged too; anything else is a host-side failure
             P.append(("host-error-logged", f"printcore logged: {str(e)[:300]}"))
             break
@@ -156,7 +158,7 @@ def check_job(cfg, S, fw, dev, marks, start, end, want, accepted, complete_expec
         unserved = [n for (j, n) in delivered_requests if j > last_numbered and n >= len(accepted)]
         extra_ok = "dialect=A" if (cfg["dialect"] == "A" and cfg["corrupt"]) else \
                    ("greeting=start" if cfg["greeting"] == "start" else "none")
-        crashed = any(t.exc is not None for t in S.threads) or any(not str(e).startswith("Error") for e in marks.get("errors", []))
+        crashed = any(t.exc is not None for t in S.threads) or any(not str(e).startswith("Error") and "SchedAbort" not in str(e) for e in marks.get("errors", []))
         if unserved and extra_ok != "none" and not crashed:
             P.append((f"tail-lost:unserved-resend:{extra_ok}", f"job {want}: firmware executed only {accepted}; Resend {unserved} was never served "
                       f"(corrupted transmissions {sorted(cfg['corrupt'])}, dialect {cfg['dialect']}, greeting {cfg['greeting']})"))
@@ -245,7 +247,9 @@ def plan(tier):
                         items.append(({**base, "line_points": True}, 0, None))
                         if len(corrupt) <= 1:
                             items.append(({**base, "line_points": False}, 1, None))
-                        if corrupt in ((), (1,), (2,)) and not eager:
+                        if (corrupt in ((), (1,), (2,)) and not eager) or (corrupt == () and eager):
+                            # the fast-device policy needs its own one-deviation search: a reply handled *immediately*
+                            # is two deviations away from the slow-device default
                             items.append(({**base, "line_points": True}, 1, None))
                         if corrupt == (1,) and not eager and greeting is None:
                             items.append(({**base, "line_points": False}, 2, None))
